@@ -11,7 +11,7 @@ Open Scope N_scope.
    literal ~13x faster than seven list cells): [B len words] is the big-endian expansion, the last word holding
    the remaining len mod 7 (or 7) bytes. *)
 Fixpoint take_be (n : nat) (x : N) (acc : bytes) : bytes :=
-  match n with O => acc | S n' => take_be n' (x / 256) (x mod 256 :: acc) end.
+  match n with O => acc | S n' => take_be n' (N.shiftr x 8) (N.land x 255 :: acc) end.
 Fixpoint B_words (len : nat) (ws : list int) : bytes :=
   match ws with
   | [] => []
@@ -66,7 +66,8 @@ Definition sort_keys (l : list bytes) : list bytes := fold_right ins_key [] l.
 (* ---------------- oracle: a log of ((subject, namespace, entry key), Some value | None), newest first *)
 Definition okey := (bytes * bytes * bytes)%type.
 Definition okey_eqb (a b : okey) : bool :=
-  bytes_eqb (fst (fst a)) (fst (fst b)) && bytes_eqb (snd (fst a)) (snd (fst b)) && bytes_eqb (snd a) (snd b).
+  (* cheapest first: entry key, namespace, then the (possibly long) subject key *)
+  bytes_eqb (snd a) (snd b) && bytes_eqb (snd (fst a)) (snd (fst b)) && bytes_eqb (fst (fst a)) (fst (fst b)).
 Definition olog := list (okey * option bytes).
 
 Fixpoint olookup (x : okey) (l : olog) : option (option bytes) :=
